@@ -49,6 +49,13 @@ def cases(draw, tier):
   if draw(st.integers(0, 2)):
     algo, c = draw(st.sampled_from(R.STATIC_CFGS))
     rules = [R.rule('.*', '*', algo, dict(c))]
+    if draw(st.integers(0, 2)) == 0:
+      # the model boundary gets its own parameters (another symmetry at the same
+      # width, or another width): the producer's output has to be re-encoded
+      algo2, c2 = draw(st.sampled_from(R.STATIC_CFGS))
+      if c['act'][0] == 8 and draw(st.booleans()):
+        algo2, c2 = R.MINMAX, (R.A8W8 if c['act'][1] else R.A8SW8)
+      rules.append(R.rule('.*', draw(st.sampled_from(['OUTPUT', 'OUTPUT', 'INPUT'])), algo2, dict(c2)))
   else:
     rules = draw(R.rules_for(names, engine.ops_present(mspec), max_rules=3,
                              cfg_pool=R.STATIC_CFGS, allow_skip=False))
